@@ -399,6 +399,19 @@ def run_check(prop: str, tier: str, replay: Optional[str]) -> int:
     import threading
 
     threading.excepthook = lambda args: None  # worker threads re-raise after set_error; keep stderr readable
+    # hard wall-clock limit: a hanging check is a harness error (exit 2), never a verdict
+    limit = float(os.environ.get("VERIF_LIMIT_S", "900" if tier == "quick" else "5400"))
+
+    def _watchdog() -> None:
+        import faulthandler
+
+        time.sleep(limit)
+        print(f"CHECK-ERROR: {prop} exceeded its wall-clock limit of {limit:.0f}s; thread dump follows", flush=True)
+        faulthandler.dump_traceback(file=sys.stdout, all_threads=True)
+        sys.stdout.flush()
+        os._exit(2)
+
+    threading.Thread(target=_watchdog, daemon=True).start()
     mod = importlib.import_module(f"harness.corr.{prop.lower()}")
     ctx = Ctx(prop, tier, seed)
 
